@@ -97,9 +97,21 @@ def subseqPos (shift origLen lseq p : Int) : Option Int :=
 /-- `SetSequence` lower-cases -/
 def lower (b : UInt8) : UInt8 := if b ≥ 65 && b ≤ 90 then b ||| 0x20 else b
 
+/-- map-valued annotations (`map[string]int` attributes such as `merged_sample`), sorted by the driver -/
+abbrev Ann := List (String × List (String × Int))
+
 structure Obj where
   seq : Bytes
   qual : Option Bytes
+  ann : Ann := []
+
+/-- `m[k] = v` on an association list -/
+def assocSet {β} (l : List (String × β)) (k : String) (v : β) : List (String × β) :=
+  if l.any (·.1 == k) then l.map (fun p => if p.1 == k then (k, v) else p) else l ++ [(k, v)]
+
+/-- in-place edit of the map stored under `key` (created when absent) -/
+def annSet (a : Ann) (key k : String) (v : Int) : Ann :=
+  assocSet a key (assocSet ((a.find? (·.1 == key)).map (·.2) |>.getD []) k v)
 
 abbrev Store := List (String × Obj)
 
@@ -115,11 +127,12 @@ inductive Op
   | sub (a b : String) (f t : Int) (circ : Bool)
   | set (a : String) (p : Nat) (v : UInt8)   -- a.Sequence()[p] = v
   | recycle (a : String)
+  | mapset (a key k : String) (v : Int)   -- a.Annotations()[key][k] = v (in place)
 
 /-- the only object an operation may change or create -/
 def Op.target : Op → String
   | .new a _ _ => a | .copy _ b => b | .rc _ b => b | .rci a => a
-  | .sub _ b _ _ _ => b | .set a _ _ => a | .recycle a => a
+  | .sub _ b _ _ _ => b | .set a _ _ => a | .recycle a => a | .mapset a _ _ _ => a
 
 inductive HErr | badOp | panic
   deriving DecidableEq
@@ -127,14 +140,14 @@ inductive HErr | badOp | panic
 def optE {α} (o : Option α) : Except HErr α := match o with | some a => .ok a | none => .error .badOp
 
 def applyOp (st : Store) : Op → Except HErr Store
-  | .new a s q => .ok (st.put a ⟨s.map lower, q⟩)
+  | .new a s q => .ok (st.put a ⟨s.map lower, q, []⟩)
   | .copy a b => do let o ← optE (st.get a); pure (st.put b o)
   | .rc a b => do
     let o ← optE (st.get a)
-    pure (st.put b ⟨revcompInPlace o.seq, o.qual.map reverseInPlace⟩)
+    pure (st.put b ⟨revcompInPlace o.seq, o.qual.map reverseInPlace, o.ann⟩)
   | .rci a => do
     let o ← optE (st.get a)
-    pure (st.put a ⟨revcompInPlace o.seq, o.qual.map reverseInPlace⟩)
+    pure (st.put a ⟨revcompInPlace o.seq, o.qual.map reverseInPlace, o.ann⟩)
   | .sub a b f t c => do
     let o ← optE (st.get a)
     match subsequence o.seq f t c with
@@ -142,14 +155,17 @@ def applyOp (st : Store) : Op → Except HErr Store
       let q := match o.qual, subsequence (o.qual.getD []) f t c with
         | some _, .ok (q, _) => some q
         | _, _ => none
-      pure (st.put b ⟨s, q⟩)
+      pure (st.put b ⟨s, q, o.ann⟩)
     | .error .panic => .error .panic
     | .error _ => pure st
   | .set a p v => do
     let o ← optE (st.get a)
-    pure (st.put a ⟨if p < o.seq.length then o.seq.set p v else o.seq, o.qual⟩)
+    pure (st.put a ⟨if p < o.seq.length then o.seq.set p v else o.seq, o.qual, o.ann⟩)
   | .recycle a => do
     let _ ← optE (st.get a)
-    pure (st.put a ⟨[], none⟩)
+    pure (st.put a ⟨[], none, []⟩)
+  | .mapset a key k v => do
+    let o ← optE (st.get a)
+    pure (st.put a ⟨o.seq, o.qual, annSet o.ann key k v⟩)
 
 end ObiVerif.SeqOps
